@@ -107,27 +107,58 @@ theorem C09_no_memory (cc : CorsCfg) (tbl : Config) (reqs : List CorsReq) :
   | nil => rfl
   | cons r rs ih => simp [corsSeq, filterCall, ih]
 
-/-- The property's predicate holds of the model's outcome, for every input. -/
+/-- The property's predicate holds of the model's outcome, for every input and in front of every
+    rest `k` of the container (`Cors.Rest`: later filters, route function or the router's error
+    answer — an arbitrary function of the header lines already on the response).
+
+    The observation is `obsOf k out = observe (withFilter k out) (k [])`: the exchange with the filter
+    compared, the way the harness compares, with the exchange of the twin.  What the predicate reads
+    and where it comes from:
+    * `later` (preflight: nothing behind the filter ran; otherwise: it ran) — from the model's
+      `passOn`, given that whatever runs behind the filter logs (`RestOK.logs`: the harness installs
+      a logging filter directly behind the CORS filter);
+    * `extra` — the model's `added`, given that the code behind the filter keeps the lines it finds
+      on the response (`RestOK.frame`) and sets no CORS header itself (`RestOK.noCors`);
+    * `restSame` for a passed-on request ("proceeds down the chain" as on the twin) — NOT a
+      consequence of the model of the filter: it is `RestOK.frame`, a hypothesis about the code
+      behind the filter (it does not look at the response headers the filter added).  Only the
+      harness can check it; it does, on every request, by the twin comparison.
+    For an origin that is not allowed the hypothesis is void and the predicate leaves the verdict to
+    C08 (`C08_as_if_absent`). -/
 theorem C09_spec (cc : CorsCfg) (tbl : Config) (rq : CorsReq) (out : Out)
-    (h : corsOut lower E cc tbl rq = some out) :
-    Spec.c09Holds lower E cc tbl rq (obsOf out) = true := by
-  unfold Spec.c09Holds
-  cases ha : Spec.originAllowed lower cc rq.origin with
-  | false => simp [obsOf]
-  | true =>
-    cases hp : Spec.isPreflight rq with
-    | false =>
-      rw [corsOut_actual lower E cc tbl rq ha hp] at h
-      cases h
-      simp [obsOf, Spec.restSame, List.isPerm_iff]
-    | true =>
+    (h : corsOut lower E cc tbl rq = some out) (k : Rest)
+    (hk : Spec.originAllowed lower cc rq.origin = true → RestOK k) :
+    Spec.c09Holds lower E cc tbl rq (obsOf k out) = true := by
+  rcases Bool.eq_false_or_eq_true (Spec.originAllowed lower cc rq.origin) with ha | ha
+  · have hk := hk ha
+    rcases Bool.eq_false_or_eq_true (Spec.isPreflight rq) with hp | hp
+    · -- preflight
       obtain ⟨hpass, hadd⟩ := corsOut_preflight lower E cc tbl rq out ha hp h
+      have hnames : ∀ x ∈ out.added, isCorsName x.1 = true := by
+        rw [hadd]
+        split
+        · exact preflightGrant_corsNames cc _ rq
+        · intro x hx; cases hx
+      obtain ⟨hex, hlat, hre⟩ := observe_answered k hk out.added hnames
+      have hobs : obsOf k out = observe (answered out.added) (k []) := by
+        rw [obsOf, withFilter_answered k out hpass]
+      rw [Spec.c09Holds, hobs, hre, ha, hp, hlat, hex]
       by_cases hok : Spec.preflightOK lower cc (Spec.methodsFor E cc tbl rq.path) rq = true
       · rw [if_pos hok] at hadd
         have f := preflightGrant_facts cc (Spec.methodsFor E cc tbl rq.path) rq
-        simp [obsOf, hpass, hok, hadd, f.1, f.2.2.1, f.2.2.2.1]
+        have g := preflightGrant_only cc (Spec.methodsFor E cc tbl rq.path) rq
+        simp only [hok, hadd, f.1, f.2.2.1, f.2.2.2.1, f.2.2.2.2, g]
+        simp
       · rw [if_neg hok] at hadd
-        simp [obsOf, hpass, hok, hadd]
+        simp [hok, hadd]
+    · -- any other request
+      rw [corsOut_actual lower E cc tbl rq ha hp] at h
+      cases h
+      obtain ⟨hperm, hrest, hlat, hre⟩ := observe_passOn k hk (Spec.actualHeaders cc rq)
+      have hobs : obsOf k ⟨Spec.actualHeaders cc rq, true⟩ = observe (k (Spec.actualHeaders cc rq)) (k []) := rfl
+      rw [Spec.c09Holds, hobs, hre, ha, hp, hlat, hrest]
+      simpa using List.isPerm_iff.mpr hperm
+  · simp [Spec.c09Holds, ha]
 
 /-! ### the strict reading of "the methods routable at that URL" (finding F14, seen from C09)
 
@@ -261,8 +292,18 @@ example : outPre.passOn = false := C09_alone toLowerAscii exEnv exCc exTbl pre o
 example := C09_grant toLowerAscii exEnv exCc exTbl pre outPre (by decide) (by decide) (by decide)
 example := C09_grant toLowerAscii exEnv exCc exTbl preBad ⟨[], false⟩ (by decide) (by decide) (by decide)
 example := C09_grant_only_if toLowerAscii exEnv exCc exTbl pre outPre (by decide) (by decide) (by decide) (by decide)
-example : Spec.c09Holds toLowerAscii exEnv exCc exTbl pre (obsOf outPre) = true :=
-  C09_spec toLowerAscii exEnv exCc exTbl pre outPre (by decide)
+/-- a rest of the container as the harness builds it: the logging filter behind the CORS filter, the
+    service's filter, the route function (adds an `X-Handler` line, status 201, a body) -/
+def k : Rest := exRest "1".toList 201 "route 1".toList ["svc:1".toList, "h:1:1".toList]
+/-- a rest of the container that violates `RestOK`: a route function that answers differently when it
+    finds an Allow-Origin line on the response -/
+def kPeek : Rest := fun hs =>
+  if (Spec.valuesOf hAllowOrigin hs).isEmpty then k hs else ⟨hs, 403, [], ["post".toList]⟩
+
+example : Spec.c09Holds toLowerAscii exEnv exCc exTbl pre (obsOf k outPre) = true :=
+  C09_spec toLowerAscii exEnv exCc exTbl pre outPre (by decide) k (fun _ => exRest_ok _ _ _ _)
+example : Spec.c09Holds toLowerAscii exEnv exCc exTbl preBad (obsOf k ⟨[], false⟩) = true :=
+  C09_spec toLowerAscii exEnv exCc exTbl preBad ⟨[], false⟩ (by decide) k (fun _ => exRest_ok _ _ _ _)
 
 /-- an actual request (PUT) from the allowed origin; every optional header configured -/
 def actual : CorsReq := { method := "PUT".toList, path := "/b/7".toList, origin := "http://good.example".toList }
@@ -291,34 +332,108 @@ example : Spec.severalRootsMatch exEnv jTbl pre.path = false ∧ exCc.allowedMet
 example := C09_routable_partial toLowerAscii exEnv exCc jTbl pre outPre (by decide) (by decide) rfl (by decide)
   (by decide) (by decide) putReq rfl rfl (by decide) none
 
-def oPre : Spec.CorsObs := obsOf outPre
-def oAct : Spec.CorsObs := obsOf ⟨Spec.actualHeaders ccFull actual, true⟩
+/-- `C09_spec` on the actual request; and why its hypothesis on the rest of the container is needed:
+    behind `kPeek` the request does NOT proceed as on the twin, and the predicate says so -/
+example : Spec.c09Holds toLowerAscii exEnv ccFull exTbl actual (obsOf k ⟨Spec.actualHeaders ccFull actual, true⟩) = true :=
+  C09_spec toLowerAscii exEnv ccFull exTbl actual ⟨Spec.actualHeaders ccFull actual, true⟩ (by decide) k (fun _ => exRest_ok _ _ _ _)
+example : Spec.c09Holds toLowerAscii exEnv ccFull exTbl actual (obsOf kPeek ⟨Spec.actualHeaders ccFull actual, true⟩) = false := by
+  decide
 
-/-- `Spec.c09Holds` is not trivially true.  The granted preflight is falsified by: a later filter or
-    route function that ran; an Allow-Methods value that is not the allowed methods (one more, another
-    one); an Allow-Headers value that is not the requested list; an Allow-Origin that is not the
-    origin.  The preflight that must be refused accepts no CORS header at all: falsified by the full
-    grant and by a lone Allow-Origin; likewise a preflight for a method that is not routable at the
-    URL.  The actual request accepts the four headers in any order and is falsified by: the chain not
-    run; a header twice; a header missing; no header; another status than the twin's. -/
+/-- the observations spelled out: what `obsOf` computes from the two exchanges -/
+def oPre : Spec.CorsObs :=
+  { reached := true, extra := outPre.added, missing := 1, status := 200, twinStatus := 201,
+    bodySame := false, logSame := false, later := false }
+def oRefused : Spec.CorsObs := { oPre with extra := [] }
+def oAct : Spec.CorsObs :=
+  { reached := true, extra := Spec.actualHeaders ccFull actual, missing := 0, status := 201, twinStatus := 201,
+    bodySame := true, logSame := true, later := true }
+example : obsOf k outPre = oPre ∧ obsOf k ⟨[], false⟩ = oRefused ∧
+    obsOf k ⟨Spec.actualHeaders ccFull actual, true⟩ = oAct := by decide
+/-- the same preflight in front of a filter with every optional header configured -/
+def ccFullPre : CorsCfg := { ccFull with allowedMethods := ["PUT".toList, "DELETE".toList] }
+def oPreFull : Spec.CorsObs := { oPre with extra :=
+  [(hAllowMethods, "PUT,DELETE".toList), (hAllowHeaders, pre.acrh)] ++ Spec.actualHeaders ccFull pre }
+example : (corsOut toLowerAscii exEnv ccFullPre exTbl pre).map (obsOf k) = some oPreFull := by decide
+
+/-- the actual-request headers without Allow-Origin / with the origin in another spelling -/
+def actNoOrigin : List (Str × Str) := oAct.extra.filter (·.1 != hAllowOrigin)
+def actOtherSpelling : List (Str × Str) :=
+  oAct.extra.map (fun h => if h.1 == hAllowOrigin then (h.1, "HTTP://good.example".toList) else h)
+example : actNoOrigin.length = 3 ∧ Spec.valuesOf hAllowOrigin actOtherSpelling = ["HTTP://good.example".toList] := by decide
+
+/-- `Spec.c09Holds` is not trivially true.
+
+    A preflight that MUST be granted (allowed origin, method and headers allowed): accepts the grant
+    (with the further actual-request headers as configured, in any order); falsified by
+    (i) no grant header at all — and by any one of the three missing;
+    (ii) Allow-Origin twice (also Allow-Methods twice);
+    (iv) Allow-Origin lower-cased;
+    an Allow-Methods value that is not the allowed methods (one more, another one); an Allow-Headers
+    value that is not the requested list; `*` for the origin; a further header that is not configured
+    (credentials, Max-Age with another value); a later filter or route function that ran.
+
+    A preflight that must be REFUSED accepts no CORS header at all: falsified by the full grant and by
+    a lone Allow-Origin; likewise a preflight for a method that is not routable at the URL.
+
+    (iii) The ACTUAL request accepts the configured headers in any order and is falsified by: no
+    header; every header except Allow-Origin; the origin in another spelling; a header twice; a header
+    missing; the chain not run; another status than the twin's. -/
 example :
     Spec.c09Holds toLowerAscii exEnv exCc exTbl pre oPre = true ∧
+    Spec.c09Holds toLowerAscii exEnv exCc exTbl pre { oPre with extra := oPre.extra.reverse } = true ∧
+    Spec.c09Holds toLowerAscii exEnv exCc exTbl pre { oPre with extra := [] } = false ∧
+    Spec.c09Holds toLowerAscii exEnv exCc exTbl pre { oPre with extra := oPre.extra.drop 1 } = false ∧
+    Spec.c09Holds toLowerAscii exEnv exCc exTbl pre { oPre with extra := oPre.extra.take 2 } = false ∧
+    Spec.c09Holds toLowerAscii exEnv exCc exTbl pre { oPre with extra :=
+      [(hAllowMethods, "PUT".toList), (hAllowOrigin, pre.origin)] } = false ∧
+    Spec.c09Holds toLowerAscii exEnv exCc exTbl pre { oPre with extra := oPre.extra ++ [(hAllowOrigin, pre.origin)] } = false ∧
+    Spec.c09Holds toLowerAscii exEnv exCc exTbl pre { oPre with extra := (hAllowMethods, "PUT".toList) :: oPre.extra } = false ∧
+    Spec.c09Holds toLowerAscii exEnv exCc exTbl pre { oPre with extra :=
+      [(hAllowMethods, "PUT".toList), (hAllowHeaders, pre.acrh), (hAllowOrigin, "http://good.example".toList)] } = false ∧
+    Spec.c09Holds toLowerAscii exEnv exCc exTbl pre { oPre with extra :=
+      [(hAllowMethods, "PUT,GET".toList), (hAllowHeaders, pre.acrh), (hAllowOrigin, pre.origin)] } = false ∧
+    Spec.c09Holds toLowerAscii exEnv exCc exTbl pre { oPre with extra :=
+      [(hAllowMethods, "GET".toList), (hAllowHeaders, pre.acrh), (hAllowOrigin, pre.origin)] } = false ∧
+    Spec.c09Holds toLowerAscii exEnv exCc exTbl pre { oPre with extra :=
+      [(hAllowMethods, "PUT".toList), (hAllowHeaders, "*".toList), (hAllowOrigin, pre.origin)] } = false ∧
+    Spec.c09Holds toLowerAscii exEnv exCc exTbl pre { oPre with extra :=
+      [(hAllowMethods, "PUT".toList), (hAllowHeaders, pre.acrh), (hAllowOrigin, "*".toList)] } = false ∧
+    Spec.c09Holds toLowerAscii exEnv exCc exTbl pre { oPre with extra := oPre.extra ++ [(hAllowCredentials, "true".toList)] } = false ∧
     Spec.c09Holds toLowerAscii exEnv exCc exTbl pre { oPre with later := true } = false ∧
-    Spec.c09Holds toLowerAscii exEnv exCc exTbl pre { oPre with extra := [(hAllowMethods, "PUT,GET".toList)] } = false ∧
-    Spec.c09Holds toLowerAscii exEnv exCc exTbl pre { oPre with extra := [(hAllowMethods, "GET".toList)] } = false ∧
-    Spec.c09Holds toLowerAscii exEnv exCc exTbl pre { oPre with extra := [(hAllowHeaders, "*".toList)] } = false ∧
-    Spec.c09Holds toLowerAscii exEnv exCc exTbl pre { oPre with extra := [(hAllowOrigin, "*".toList)] } = false ∧
-    Spec.c09Holds toLowerAscii exEnv exCc exTbl preBad (obsOf ⟨[], false⟩) = true ∧
+    Spec.c09Holds toLowerAscii exEnv ccFullPre exTbl pre oPreFull = true ∧
+    Spec.c09Holds toLowerAscii exEnv ccFullPre exTbl pre { oPreFull with extra := oPreFull.extra.reverse } = true ∧
+    Spec.c09Holds toLowerAscii exEnv ccFullPre exTbl pre { oPreFull with extra := oPreFull.extra.take 5 ++ [(hMaxAge, "61".toList)] } = false ∧
+    Spec.c09Holds toLowerAscii exEnv exCc exTbl preBad oRefused = true ∧
     Spec.c09Holds toLowerAscii exEnv exCc exTbl preBad oPre = false ∧
     Spec.c09Holds toLowerAscii exEnv exCc exTbl preBad { oPre with extra := [(hAllowOrigin, preBad.origin)] } = false ∧
     Spec.c09Holds toLowerAscii exEnv exCc exTbl (exPre "/b/7" "GET" "") oPre = false ∧
     Spec.c09Holds toLowerAscii exEnv ccFull exTbl actual oAct = true ∧
     Spec.c09Holds toLowerAscii exEnv ccFull exTbl actual { oAct with extra := oAct.extra.reverse } = true ∧
-    Spec.c09Holds toLowerAscii exEnv ccFull exTbl actual { oAct with later := false } = false ∧
+    Spec.c09Holds toLowerAscii exEnv ccFull exTbl actual { oAct with extra := [] } = false ∧
+    Spec.c09Holds toLowerAscii exEnv ccFull exTbl actual { oAct with extra := actNoOrigin } = false ∧
+    Spec.c09Holds toLowerAscii exEnv ccFull exTbl actual { oAct with extra := actOtherSpelling } = false ∧
     Spec.c09Holds toLowerAscii exEnv ccFull exTbl actual { oAct with extra := oAct.extra ++ [(hMaxAge, "60".toList)] } = false ∧
     Spec.c09Holds toLowerAscii exEnv ccFull exTbl actual { oAct with extra := oAct.extra.drop 1 } = false ∧
-    Spec.c09Holds toLowerAscii exEnv ccFull exTbl actual { oAct with extra := [] } = false ∧
+    Spec.c09Holds toLowerAscii exEnv ccFull exTbl actual { oAct with later := false } = false ∧
     Spec.c09Holds toLowerAscii exEnv ccFull exTbl actual { oAct with status := 500 } = false := by
+  decide
+
+/-- The four observations of the review, each REJECTED by `Spec.c09Holds` (the first was accepted
+    before the predicate was strengthened):
+    (i) a preflight that must be granted (`pre`: allowed origin, PUT routable at `/b/7`, both
+        requested headers allowed) that received none of the three grant headers;
+    (ii) a grant with Allow-Origin twice;
+    (iii) an actual request from an allowed origin without Allow-Origin (no header at all; every
+        other configured header);
+    (iv) Allow-Origin lower-cased: the request said `http://GOOD.example`. -/
+example :
+    Spec.c09Holds toLowerAscii exEnv exCc exTbl pre { oPre with extra := [] } = false ∧
+    Spec.c09Holds toLowerAscii exEnv exCc exTbl pre { oPre with extra := oPre.extra ++ [(hAllowOrigin, pre.origin)] } = false ∧
+    Spec.c09Holds toLowerAscii exEnv ccFull exTbl actual { oAct with extra := [] } = false ∧
+    Spec.c09Holds toLowerAscii exEnv ccFull exTbl actual { oAct with extra := actNoOrigin } = false ∧
+    Spec.c09Holds toLowerAscii exEnv exCc exTbl pre { oPre with extra :=
+      [(hAllowMethods, "PUT".toList), (hAllowHeaders, pre.acrh), (hAllowOrigin, toLowerAscii pre.origin)] } = false ∧
+    toLowerAscii pre.origin ≠ pre.origin := by
   decide
 
 end C09Example
